@@ -123,19 +123,29 @@ Qed.
 
 (* The count clause, for every numeric instance (binary64 included), under
    the exact condition on which it depends. *)
+(* an increment that compares equal to zero: n points at the start value *)
+Lemma grid_axis_zero s i n : eqb i zero = true -> grid_axis s i n = repeat s (Z.to_nat (ntrunc n)).
+Proof. intros H. unfold grid_axis. rewrite H. reflexivity. Qed.
+Lemma grid_axis_nonzero s i n : eqb i zero = false ->
+  grid_axis s i n = firstn (Z.to_nat (ntrunc n)) (np_arange s (add s (mul n i)) i).
+Proof. intros H. unfold grid_axis. rewrite H. reflexivity. Qed.
+
 Lemma grid_axis_length_cond s i n :
-  (Z.to_nat (ntrunc n) <= np_arange_len s (add s (mul n i)) i)%nat ->
+  (eqb i zero = false -> Z.to_nat (ntrunc n) <= np_arange_len s (add s (mul n i)) i)%nat ->
   length (grid_axis s i n) = Z.to_nat (ntrunc n).
 Proof.
-  intros H. unfold grid_axis. rewrite firstn_length, np_arange_length. lia.
+  intros H. destruct (eqb i zero) eqn:E.
+  - rewrite grid_axis_zero by exact E. apply repeat_length.
+  - rewrite grid_axis_nonzero by exact E. rewrite firstn_length, np_arange_length. specialize (H eq_refl). lia.
 Qed.
 
 Lemma grid_axis_nth_cond s i n k :
+  eqb i zero = false ->
   (Z.to_nat (ntrunc n) <= np_arange_len s (add s (mul n i)) i)%nat ->
   (k < Z.to_nat (ntrunc n))%nat ->
   nth k (grid_axis s i n) zero = np_arange_elt s i k.
 Proof.
-  intros H Hk. unfold grid_axis.
+  intros E H Hk. rewrite grid_axis_nonzero by exact E.
   rewrite <- (firstn_skipn (Z.to_nat (ntrunc n)) (np_arange s (add s (mul n i)) i)) at 1.
   rewrite firstn_app, firstn_firstn, Nat.min_id.
   rewrite app_nth1.
@@ -144,6 +154,13 @@ Proof.
   rewrite <- (firstn_skipn (Z.to_nat (ntrunc n)) (np_arange s (add s (mul n i)) i)) at 2.
   rewrite app_nth1. reflexivity.
   rewrite firstn_length, np_arange_length. lia.
+Qed.
+
+Lemma grid_axis_nth_zero s i n k :
+  eqb i zero = true -> (k < Z.to_nat (ntrunc n))%nat -> nth k (grid_axis s i n) zero = s.
+Proof.
+  intros E Hk. rewrite grid_axis_zero by exact E.
+  apply nth_repeat_lt || (revert k Hk; induction (Z.to_nat (ntrunc n)) as [|m IH]; intros k Hk; [lia|]; destruct k; cbn; [reflexivity|apply IH; lia]).
 Qed.
 
 End Generic.
@@ -220,25 +237,34 @@ Proof. intros. split; [apply grid3_length | apply grid3_nth]. Qed.
 
 Lemma C16_near_axis_any_instance_proof :
   forall (N : Num) (s i n : T),
-    (Z.to_nat (ntrunc n) <= np_arange_len s (add s (mul n i)) i)%nat ->
+    (eqb i zero = false -> Z.to_nat (ntrunc n) <= np_arange_len s (add s (mul n i)) i)%nat ->
     length (grid_axis s i n) = Z.to_nat (ntrunc n) /\
     forall k, (k < Z.to_nat (ntrunc n))%nat ->
-      nth k (grid_axis s i n) zero = np_arange_elt s i k.
+      nth k (grid_axis s i n) zero = if eqb i zero then s else np_arange_elt s i k.
 Proof.
-  intros. split; [apply grid_axis_length_cond | intros; apply grid_axis_nth_cond]; assumption.
+  intros N s i n H. split; [apply grid_axis_length_cond; exact H|].
+  intros k Hk. destruct (eqb i zero) eqn:E.
+  - apply grid_axis_nth_zero; assumption.
+  - apply grid_axis_nth_cond; auto.
 Qed.
 
 Lemma C16_near_axis_exact_proof :
-  forall (s i : R) (c : Z), i <> 0%R ->
+  forall (s i : R) (c : Z),
     length (@grid_axis RNum s i (IZR c)) = Z.to_nat c /\
     forall k, (k < Z.to_nat c)%nat ->
       nth k (@grid_axis RNum s i (IZR c)) 0%R = (s + INR k * i)%R.
 Proof.
-  intros s i c Hi.
+  intros s i c.
   pose proof (C16_near_axis_any_instance_proof RNum s i (IZR c)) as H.
   rewrite ntrunc_IZR in H.
-  cbn [add mul RNum] in H. rewrite np_arange_len_R in H by exact Hi.
-  destruct (H (le_n _)) as [H1 H2]. split; [exact H1|].
-  intros k Hk. change 0%R with (@zero RNum). rewrite H2 by exact Hk.
-  apply np_arange_elt_R.
+  destruct (Req_EM_T i 0) as [Hz|Hi].
+  - assert (E : @eqb RNum i zero = true) by (cbn; apply Reqb_true; exact Hz).
+    rewrite E in H. destruct (H ltac:(discriminate)) as [H1 H2]. split; [exact H1|].
+    intros k Hk. change 0%R with (@zero RNum). rewrite H2 by exact Hk. rewrite Hz. change (@T RNum) with R. change (s = s + INR k * 0)%R. ring.
+  - assert (E : @eqb RNum i zero = false).
+    { cbn. destruct (Reqb i 0) eqn:Q; [apply Reqb_true in Q; contradiction|reflexivity]. }
+    rewrite E in H. cbn [add mul RNum] in H. rewrite np_arange_len_R in H by exact Hi.
+    destruct (H (fun _ => le_n _)) as [H1 H2]. split; [exact H1|].
+    intros k Hk. change 0%R with (@zero RNum). rewrite H2 by exact Hk.
+    apply np_arange_elt_R.
 Qed.
